@@ -179,7 +179,7 @@ def run(chk):
                 "still (many generations per second) and sometimes jumps. All ids of the whole run (one process) are checked for "
                 "pairwise distinctness, form and prefix; the sequence is compared with the model's counter. distinct = distinct histories.")
     chk.trusted += ["correspondence harness props/c16.py (datetime rebound inside bromelia._internal_utils to a scripted clock)",
-                    "str formatting of the Session-Id text (the Lean theorem is on (identity, high, low))"]
+                    "Python f-string formatting of the Session-Id = the model's `render` (compared text for text on every generated id; `session_text_unique` is about `render`)"]
     explore(chk, rng, 400 if chk.tier == "quick" else 15000, "sweep")
 
     def search():
